@@ -51,6 +51,20 @@ def files(v, base):
                              'buildScript: |\n    vlog "fpk build"\n    { echo "fpk built on $(< "$FPFILE")"; } > result.txt\n'
                              'packageScript: |\n    vlog "fpk package"\n    { echo fpk-pkg; reveal "$1"; } > result.txt\n')
     f['recipes/app.yaml'] = f['recipes/app.yaml'].replace("depends:\n", "depends:\n    - gsrc\n    - fpk\n", 1)
+    # lib uses two tools: the strong one (gen) and a weak one whose name sorts before it but which is provided after it
+    f['recipes/aw.yaml'] = ('inherit: [base]\nbuildScript: |\n    vlog "aw build"\n    mkdir -p wbin\n    printf \'#!/bin/sh\\necho aweak\\n\' > wbin/aweak\n    chmod +x wbin/aweak\n'
+                            'packageScript: |\n    vlog "aw package"\n    cp -a "$1"/wbin .\nprovideTools:\n    aweak: "wbin"\n')
+    assert '    - name: gen\n      use: [tools]\n      forward: True\n' in f['recipes/root.yaml']
+    f['recipes/root.yaml'] = f['recipes/root.yaml'].replace('    - name: gen\n      use: [tools]\n      forward: True\n',
+                                                            '    - name: gen\n      use: [tools]\n      forward: True\n    - name: aw\n      use: [tools]\n      forward: True\n    - dl\n', 1)
+    assert 'buildTools: [gen]\n' in f['recipes/lib.yaml']
+    f['recipes/lib.yaml'] = f['recipes/lib.yaml'].replace('buildTools: [gen]\n', 'buildTools: [gen]\nbuildToolsWeak: [aweak]\n', 1)
+    if v.get('toolscript'):
+        f['recipes/gen.yaml'] = f['recipes/gen.yaml'].replace('gen-from-bin', 'gen-v1-from-bin')
+    # the url source of dl is declared deterministic but its checkout script is not (a whitelisted host variable leaks in):
+    # live build-id predictions for it can turn out wrong
+    assert "    extract: False\n" in f['recipes/dl.yaml']
+    f['recipes/dl.yaml'] = f['recipes/dl.yaml'].replace("    extract: False\n", "    extract: False\ncheckoutDeterministic: True\ncheckoutScript: |\n    echo \"flavour ${VERIF_NONCE:-none}\" > flavour.txt\n", 1)
     return f
 
 
